@@ -23,7 +23,11 @@ R(s, out) == [st |-> s, out |-> out]
 SrcsOf(mm) == 1..mm.k
 AllEndedF(mm, s2) == s2.ended = SrcsOf(mm)
 
+\* SequenceEqual compares the k-th values of its two sources by a key: the digit of the value, except that source 2's second value never matches
+SeqKeyEq(t) == (t[1] % 10) = (IF t[2] % 10 = 1 THEN 9 ELSE t[2] % 10)
+
 (* one arrival n from source s, for operator mm in state ss (not terminated): PURE function, shared with MultiLin.tla *)
+RECURSIVE MStepF(_, _, _, _)
 MStepF(mm, ss, s, n) ==
   LET c == n.c  v == n.v
       ended1 == [ss EXCEPT !.ended = @ \cup {s}]          \* the source ended by itself
@@ -48,6 +52,17 @@ MStepF(mm, ss, s, n) ==
                              ELSE R([ss EXCEPT !.q = q2], <<>>)
            [] n.k = "E" -> R(ended1, <<n>>)
            [] OTHER     -> IF ss.q[s] = <<>> THEN R(ended1, <<C(c)>>) ELSE R(ended1, <<>>)
+    [] mm.op = "SequenceEqual" ->
+         \* built on Zip2 (pinned): the pairs are compared instead of emitted; the first unequal pair ends the stream with FALSE (0), the
+         \* completion of the zip - a source completed and its queue is drained, whatever the other one still holds - with TRUE (1)
+         LET z == MStepF([mm EXCEPT !.op = "Zip"], ss, s, n)
+             o == z.out
+             verdict(b, cc) == <<N(b, cc), C(cc)>>
+             out2 == IF o = <<>> THEN <<>>
+                     ELSE IF o[1].k = "N"
+                            THEN (IF ~SeqKeyEq(o[1].v) THEN verdict(0, o[1].c) ELSE IF Len(o) = 2 THEN verdict(1, o[2].c) ELSE <<>>)
+                            ELSE IF o[1].k = "C" THEN verdict(1, o[1].c) ELSE o
+         IN R(z.st, out2)
     [] mm.op = "Race" ->
          IF ss.won = 0
            THEN R([(IF n.k = "N" THEN ss ELSE ended1) EXCEPT !.won = s, !.torn = @ \cup (ss.live \ {s}), !.live = @ \cap {s}], <<n>>)
